@@ -6,8 +6,10 @@ package c14
 
 import (
 	"fmt"
+	"os"
 	"regexp"
 	"sort"
+	"strconv"
 	"strings"
 	"sync"
 	"sync/atomic"
@@ -25,6 +27,13 @@ type unit struct {
 	body  []*node
 	shape *shape
 	size  int
+	seq   int // position in the deterministic generation order
+}
+
+type failure struct {
+	b *batch
+	u *unit
+	m mismatch
 }
 
 type batch struct {
@@ -80,7 +89,10 @@ type checker struct {
 
 	nFns, nCalls, nBig, nBatches       vk.Counter
 	nNeoRejected, nSuppressed, nMinRun vk.Counter
+	nUnreported                        vk.Counter
 	harnessErrs                        []string
+	fails                              []failure
+	failsDropped                       int
 	neoRejects                         map[string]int
 	perFeature                         map[string]int
 	nViol                              int64
@@ -186,10 +198,30 @@ func (ck *checker) runUnits(b *batch, units []*unit) {
 		}
 		return
 	}
+	ck.mu.Lock()
 	for i := range ev.Mism {
-		m := &ev.Mism[i]
-		u := unitOf(units, p, m.Fn)
-		ck.failing(b, u, p, m)
+		m := ev.Mism[i]
+		if len(ck.fails) < 20000 {
+			ck.fails = append(ck.fails, failure{b, unitOf(units, p, m.Fn), m})
+		} else {
+			ck.failsDropped++
+		}
+	}
+	ck.mu.Unlock()
+}
+
+// report handles the collected failures in generation order (simplest first),
+// so that which program represents a root cause does not depend on scheduling.
+func (ck *checker) report() {
+	sort.SliceStable(ck.fails, func(i, j int) bool { return ck.fails[i].u.seq < ck.fails[j].u.seq })
+	seen := map[*unit]bool{}
+	for i := range ck.fails {
+		f := &ck.fails[i]
+		if seen[f.u] {
+			continue // one report per program (a shape may have several exported functions)
+		}
+		seen[f.u] = true
+		ck.failing(f.b, f.u, &f.m)
 	}
 }
 
@@ -237,6 +269,7 @@ type violDetail struct {
 	Prog      *Prog    `json:"program"` // what --replay runs
 	FnName    string   `json:"function"`
 	Paths     []string `json:"paths,omitempty"`
+	Core      []string `json:"paths_that_matter,omitempty"` // later failing programs containing these (same symptom) count as the same cause
 	ShapeTag  string   `json:"shape_tag,omitempty"`
 	Note      string   `json:"note,omitempty"`
 	SameCause int      `json:"other_failing_programs_with_same_cause,omitempty"`
@@ -246,7 +279,7 @@ func (d violDetail) String() string {
 	return fmt.Sprintf("%s %s: %s args=(%s) go=%s vm=%s %s\n%s", d.Kind, d.Feature, d.Mismatch.Kind, d.Mismatch.Args, d.Mismatch.Go, d.Mismatch.VM, d.Mismatch.Diag, d.Source)
 }
 
-func (ck *checker) failing(b *batch, u *unit, p *Prog, m *mismatch) {
+func (ck *checker) failing(b *batch, u *unit, m *mismatch) {
 	if ck.tooMany() {
 		return
 	}
@@ -313,18 +346,17 @@ func (ck *checker) failing(b *batch, u *unit, p *Prog, m *mismatch) {
 		ck.nSuppressed.Inc()
 		return
 	}
-	ck.minMu.Lock()
-	defer ck.minMu.Unlock()
-	if suppressed() {
-		ck.nSuppressed.Inc()
-		return
-	}
-	if ck.tooMany() {
+	if ck.tooMany() || len(ck.findings) >= 25 {
+		if ck.nUnreported.Get() == 0 {
+			fmt.Printf("report cap reached (%d violations, %d grammar findings): further failing programs are only counted\n", atomic.LoadInt64(&ck.nViol), len(ck.findings))
+		}
+		ck.nUnreported.Inc()
 		return
 	}
 	minFn, minM := u.fn, *m
+	corePaths := u.fn.Paths
 	if u.kind == "grammar" {
-		minFn, minM = ck.minimise(b, u, m)
+		minFn, minM, corePaths = ck.minimise(b, u, m)
 	}
 	one := &Prog{Prelude: b.prelude, Fns: []Fn{minFn}}
 	norm := strings.Replace(minFn.Src, "func "+minFn.Name+"(", "func F(", 1)
@@ -334,16 +366,19 @@ func (ck *checker) failing(b *batch, u *unit, p *Prog, m *mismatch) {
 	}
 	key := fmt.Sprintf("%s/%s:%s", feat, minM.Kind, shortHash(norm))
 	ck.mu.Lock()
-	ck.findings = append(ck.findings, &finding{sig: sig, paths: minFn.Paths, key: key})
+	if os.Getenv("C14_DEBUG") != "" {
+		fmt.Printf("DEBUG finding sig=%q orig=%v min=%v core=%v key=%s\n", sig, u.fn.Paths, minFn.Paths, corePaths, key)
+	}
+	ck.findings = append(ck.findings, &finding{sig: sig, paths: corePaths, key: key})
 	ck.mu.Unlock()
 	atomic.AddInt64(&ck.nViol, 1)
 	minM.Fn = 0
-	ck.r.Violation(key, violDetail{Kind: u.kind, Feature: feat, Mismatch: minM, Source: norm, Original: u.fn.Src, Prog: one, FnName: minFn.Name, Paths: minFn.Paths})
+	ck.r.Violation(key, violDetail{Kind: u.kind, Feature: feat, Mismatch: minM, Source: norm, Original: u.fn.Src, Prog: one, FnName: minFn.Name, Paths: minFn.Paths, Core: corePaths})
 }
 
 // minimise shrinks the body of a failing grammar function while the same kind
 // of mismatch stays.
-func (ck *checker) minimise(b *batch, u *unit, m *mismatch) (Fn, mismatch) {
+func (ck *checker) minimise(b *batch, u *unit, m *mismatch) (Fn, mismatch, []string) {
 	best, bestFn, bestM := u.body, u.fn, *m
 	try := func(body []*node) (Fn, mismatch, bool) {
 		if !validBody(body, gctx{}) {
@@ -368,6 +403,9 @@ func (ck *checker) minimise(b *batch, u *unit, m *mismatch) (Fn, mismatch) {
 	for rounds := 0; rounds < 20; rounds++ {
 		improved := false
 		for _, cand := range shrinks(best) {
+			if ck.r.Expired() {
+				return bestFn, bestM, bestFn.Paths
+			}
 			if fn, mm, ok := try(cand); ok {
 				best, bestFn, bestM = cand, fn, mm
 				improved = true
@@ -378,7 +416,68 @@ func (ck *checker) minimise(b *batch, u *unit, m *mismatch) (Fn, mismatch) {
 			break
 		}
 	}
-	return bestFn, bestM
+	// Which plain statements of the minimal body only make the failure visible?
+	// One that can be replaced by two other plain atoms without curing the
+	// failure is not part of the cause: it is left out of the paths used to
+	// recognise later failing programs as the same cause.
+	var plain []*atom
+	for _, a := range u.fr.atoms {
+		if a.needs == "" && !a.ends {
+			plain = append(plain, a)
+		}
+	}
+	drop := map[string]int{}
+	var visit func(list []*node, rebuild func([]*node) []*node, path string)
+	visit = func(list []*node, rebuild func([]*node) []*node, path string) {
+		for i, s := range list {
+			if s.a != nil {
+				if s.a.needs != "" || s.a.ends || ck.r.Expired() {
+					continue
+				}
+				tried, still := 0, 0
+				for _, alt := range plain {
+					if alt == s.a || tried == 2 {
+						continue
+					}
+					tried++
+					nl := append([]*node{}, list...)
+					nl[i] = &node{a: alt}
+					if _, _, ok := try(rebuild(nl)); ok {
+						still++
+					}
+				}
+				if tried == 2 && still == 2 {
+					drop[path+s.a.kind]++
+				}
+				continue
+			}
+			p := path + s.c.kind
+			if s.c.useCond {
+				p += fmt.Sprintf("[c%d]", s.cond)
+			}
+			i, s := i, s
+			visit(s.body, func(nb []*node) []*node {
+				ns := *s
+				ns.body = nb
+				nl := append([]*node{}, list...)
+				nl[i] = &ns
+				return rebuild(nl)
+			}, p+">")
+		}
+	}
+	visit(best, func(l []*node) []*node { return l }, "")
+	var core []string
+	for _, p := range bestFn.Paths {
+		if drop[p] > 0 {
+			drop[p]--
+			continue
+		}
+		core = append(core, p)
+	}
+	if len(core) == 0 {
+		core = bestFn.Paths
+	}
+	return bestFn, bestM, core
 }
 
 // isChain: every statement list has at most one statement.
@@ -561,6 +660,13 @@ func (ck *checker) buildBatches(thorough bool, stats map[string]any) []*batch {
 			}
 		}
 	}
+	seq := 0
+	for _, b := range batches {
+		for _, u := range b.units {
+			seq++
+			u.seq = seq
+		}
+	}
 	stats["alphabets"] = alpha
 	stats["bodies_enumerated"] = enumerated
 	stats["bodies_not_emitted_may_leave_64_bits"] = rejected
@@ -568,7 +674,7 @@ func (ck *checker) buildBatches(thorough bool, stats map[string]any) []*batch {
 }
 
 func TestCheck(t *testing.T) {
-	r := vk.Start("C14", "model_checking", 140*time.Second, 22*time.Minute)
+	r := vk.Start("C14", "model_checking", 180*time.Second, 24*time.Minute)
 	setupEnv()
 	defer vk.CleanScratch()
 	ck := &checker{r: r, shapeSeen: map[string]*finding{}, famCount: map[string]int{}, neoRejects: map[string]int{}, perFeature: map[string]int{}}
@@ -583,6 +689,16 @@ func TestCheck(t *testing.T) {
 		total += len(b.units)
 	}
 	fmt.Printf("C14 %s: %d programs in %d files\n", r.Tier, total, len(batches))
+	budget := 165.0
+	if r.Thorough() {
+		budget = 22 * 60
+	}
+	if e := os.Getenv("VERIF_BUDGET_S"); e != "" {
+		if n, err := strconv.Atoi(e); err == nil {
+			budget = float64(n)
+		}
+	}
+	soft := budget * 0.9
 	var next int64
 	var wg sync.WaitGroup
 	workers := r.Workers()
@@ -593,7 +709,8 @@ func TestCheck(t *testing.T) {
 			defer wg.Done()
 			for {
 				i := int(atomic.AddInt64(&next, 1) - 1)
-				if i >= len(batches) || r.Expired() || ck.tooMany() {
+				// the last tenth of the budget is kept for minimising and confirming what failed
+				if i >= len(batches) || r.Elapsed() > soft || r.Expired() {
 					return
 				}
 				ck.runUnits(batches[i], batches[i].units)
@@ -605,6 +722,7 @@ func TestCheck(t *testing.T) {
 	if int(done) < len(batches) {
 		r.Capped()
 	}
+	ck.report()
 	outMu.Lock()
 	for k, n := range outAgg {
 		for i := 0; i < 1; i++ {
@@ -629,6 +747,8 @@ func TestCheck(t *testing.T) {
 		"functions_by_feature":                          ck.perFeature,
 		"argument_domains":                              map[string]any{"int": intDom, "string": strDom, "bool": boolDom},
 		"harness_errors":                                len(ck.harnessErrs),
+		"failing_programs_total":                        len(ck.fails) + ck.failsDropped,
+		"failing_programs_beyond_report_cap":            int(ck.nUnreported.Get()),
 		"cpu_ms_neo_go_compile":                         int(tNeo.Get()),
 		"cpu_ms_reference_build_and_run":                int(tGo.Get()),
 		"cpu_ms_reference_build":                        int(tGoBuild.Get()),
